@@ -496,17 +496,21 @@ async fn burst(ctx: &Ctx, rng: &mut Rng, epmd: &net::EpmdTable, id: usize) {
 async fn quiet_period(ctx: &Ctx, epmd: &net::EpmdTable, id: usize, periods: usize) {
     let Some((w, mut peer)) = setup(ctx, epmd, id).await else { return };
     ctx.class(&format!("quiet/{}x12.5s", periods));
+    // silence, then a frame arriving in pieces (no tick in between); tick, silence (a tick followed by a silence
+    // longer than the timeout), tick, ordinary frame; the peer never stays silent longer than 12.5 s
     for p in 0..periods {
         tokio::time::sleep(Duration::from_millis(12_500)).await;
+        if p == 0 {
+            if !probe_as(ctx, &w, &mut peer, 434343 + id as i128, "Quiet+FrameInPieces", id, true).await {
+                return;
+            }
+        }
         if peer.sock_write(&[0, 0, 0, 0]).await.is_err() {
             ctx.viol("C19:receiver-gone-after:Quiet", "the node closed the connection during a quiet period in which the peer was due to tick", json!({"period": p}));
             return;
         }
     }
-    // first a frame that arrives in pieces right after the silence, then an ordinary one
-    if probe_as(ctx, &w, &mut peer, 434343 + id as i128, "Quiet+FrameInPieces", id, true).await {
-        let _ = probe(ctx, &w, &mut peer, 424242 + id as i128, "Quiet", id).await;
-    }
+    let _ = probe(ctx, &w, &mut peer, 424242 + id as i128, "Quiet", id).await;
     ctx.count("quiet_periods_survived_or_judged", periods as u64);
 }
 
